@@ -27,6 +27,7 @@ import (
 	"google.golang.org/protobuf/proto"
 	"google.golang.org/protobuf/reflect/protoreflect"
 	"google.golang.org/protobuf/types/dynamicpb"
+	"larking.io/larking"
 )
 
 func init() {
@@ -37,7 +38,84 @@ func init() {
 func runC13(c *Ctx) {
 	c.Rule("a race-detector build of the harness drives one mux from many goroutines at once, every request carrying its own random payload (sizes 0..5000 incl. the pool buffer's 64-byte boundary): HTTP/JSON and HTTP/protobuf unary (identity and gzip request bodies), HTTP client streams with several messages per read (length-delimited protobuf, JSON), HttpBody uploads whose handler keeps every chunk until the end, gRPC through a real h2c server (unary, client / server / bidi streams, identity and gzip), raw gRPC and gRPC-web frames incl. corrupt gzip frames (the decompress error path) next to valid ones, and calls proxied through RegisterConn to an echo backend where the client or the backend fails first. Handlers keep every message they receive and answer only at the end; each goroutine checks that its reply and what its handler kept are functions of its own request. Data race reports are failures. Non-trivial: every kind of concurrent check.")
 	c.Assume("sync.Pool, sync.WaitGroup and the Go memory model are as documented; the race detector samples the schedules that actually happened")
+	c13Lifecycle(c)
 	runStress(c, "C13", c.N(2500, 12000))
+}
+
+// c13Lifecycle: streamGRPC.begin / Done / close driven step by step against the Lean model
+// (Lifecycle.run) and against the property: close never returns while a call is in flight and
+// no call is accepted once close has returned.
+func c13Lifecycle(c *Ctx) {
+	for i := 0; i < c.N(60, 600); i++ {
+		n := 1 + c.Rng.Intn(14)
+		var sb, mb strings.Builder
+		for j := 0; j < n; j++ {
+			ch := "bbdc"[c.Rng.Intn(4)]
+			sb.WriteByte(ch)
+		}
+		steps := sb.String()
+		out := larking.VerifStreamLifecycle(steps, 1500*time.Microsecond)
+		// the model: 'c' marks; Wait returns as soon as it can (a 'w' after every step is a no-op while disabled)
+		inflight, started := 0, false
+		for j, ch := range steps {
+			switch ch {
+			case 'b':
+				mb.WriteByte('b')
+			case 'd':
+				mb.WriteByte('d')
+			case 'c':
+				mb.WriteByte('m')
+				started = true
+			}
+			if started {
+				mb.WriteByte('w')
+			}
+			_ = j
+		}
+		last := out[len(out)-1]
+		var acc, ref int
+		var ret bool
+		fmt.Sscanf(strings.ReplaceAll(last, ",", " "), "%d %d %t", &acc, &ref, &ret)
+		dones := 0
+		inflight = 0
+		for _, ch := range steps { // calls in flight at the end, from the accepted begins
+			_ = ch
+		}
+		// recompute in-flight count from the per-step report
+		prevAcc := 0
+		for j, ch := range steps {
+			var a, r int
+			var rt bool
+			fmt.Sscanf(strings.ReplaceAll(out[j], ",", " "), "%d %d %t", &a, &r, &rt)
+			if ch == 'b' && a > prevAcc {
+				inflight++
+			}
+			if ch == 'd' && inflight > 0 {
+				inflight--
+				dones++
+			}
+			prevAcc = a
+			// the property, step by step
+			if rt && inflight > 0 {
+				c.SpecFail("lifecycle", steps, fmt.Sprintf("after step %d: close returned with %d calls in flight (%v)", j, inflight, out), "close waits for every call in flight", "C13/lifecycle/close-returned-early", "serveGRPC would hand the ResponseWriter back while a stream call is still running")
+			}
+		}
+		afterReturn := false
+		prevAcc = 0
+		for j, ch := range steps {
+			var a, r int
+			var rt bool
+			fmt.Sscanf(strings.ReplaceAll(out[j], ",", " "), "%d %d %t", &a, &r, &rt)
+			if ch == 'b' && afterReturn && a > prevAcc {
+				c.SpecFail("lifecycle", steps, fmt.Sprintf("step %d: a stream call was accepted after close had returned (%v)", j, out), "refused", "C13/lifecycle/call-after-close", "a goroutine left behind by the handler can touch the stream after serveGRPC is over")
+			}
+			prevAcc = a
+			if rt {
+				afterReturn = true
+			}
+		}
+		c.Correspond("lifecycle", join("lifecycle", "true", mb.String()), fmt.Sprintf("%v,%d,%v,%d", started, inflight, ret, ref), true)
+	}
 }
 
 // ---------------------------------------------------------------- echo fixture
